@@ -21,6 +21,10 @@ pub enum OutMode {
     /// `ln -s <dir> $3`: the target is a symbolic link to an existing
     /// directory (path relative to the target's directory)
     LinkDir(String),
+    /// the output is itself a rule: `#!<simdo>`, the statements given here
+    /// (`;` between statements, `,` between their words), then the usual
+    /// output as comment lines -- a generated .do file
+    RuleText(String),
 }
 
 /// What a snapshot shows for a symbolic link that is a file of the project.
@@ -38,6 +42,9 @@ impl OutMode {
         if let OutMode::LinkDir(d) = self {
             return format!("linkdir:{}", d);
         }
+        if let OutMode::RuleText(b) = self {
+            return format!("rule:{}", b);
+        }
         match self {
             OutMode::Stdout => "stdout",
             OutMode::File => "file",
@@ -48,13 +55,16 @@ impl OutMode {
             OutMode::Append => "append",
             OutMode::Link => "link",
             OutMode::LinkBoth => "linkboth",
-            OutMode::LinkDir(_) => unreachable!(),
+            OutMode::LinkDir(_) | OutMode::RuleText(_) => unreachable!(),
         }
         .to_string()
     }
     pub fn parse(s: &str) -> OutMode {
         if let Some(d) = s.strip_prefix("linkdir:") {
             return OutMode::LinkDir(d.to_string());
+        }
+        if let Some(b) = s.strip_prefix("rule:") {
+            return OutMode::RuleText(b.to_string());
         }
         match s {
             "file" => OutMode::File,
